@@ -95,7 +95,7 @@ def anon_free(d):
 class OrderOb(TemplateObligation):
     seeds = 16
 
-    budget_s = 400
+    budget_s = 1200
 
     def __init__(self, name, stmts, dialect="ansi", meta=None, length=2, region=None, kinds=None, fixed=()):
         self.name, self.stmts, self.dialect, self.meta, self.length, self.region = name, list(stmts), dialect, meta, length, region
